@@ -733,6 +733,13 @@ class DataFrame:
         names = list(self.cols) if subset is None else ([subset] if isinstance(subset, str) else list(subset))
         rows = self._rows(names)
         keep = []
+        if _all_plain(rows):  # concrete keys: same result through a hash table
+            seen = set()
+            for i, r in enumerate(rows):
+                if r not in seen:
+                    seen.add(r)
+                    keep.append(i)
+            return self._take(keep)
         for i, r in enumerate(rows):
             if not any(all(_t(np._eq(a, b)) for a, b in zip(r, rows[j])) for j in keep):
                 keep.append(i)
@@ -786,14 +793,35 @@ class DataFrame:
         lrows, rrows = self._rows(on), right._rows(on)
         extra = [c for c in right.cols if c not in on]
         out = {c: [] for c in list(self.cols) + extra}
+        table = None
+        if _all_plain(lrows) and _all_plain(rrows):  # concrete keys: same matches, in the same order, through a hash table
+            table = {}
+            for j, rr in enumerate(rrows):
+                table.setdefault(rr, []).append(j)
         for i, lr in enumerate(lrows):
-            ms = [j for j, rr in enumerate(rrows) if all(_t(np._eq(a, b)) for a, b in zip(lr, rr))]
+            if table is not None:
+                ms = table.get(lr, [])
+            else:
+                ms = [j for j, rr in enumerate(rrows) if all(_t(np._eq(a, b)) for a, b in zip(lr, rr))]
             for j in (ms or [None]):
                 for c in self.cols:
                     out[c].append(self.cols[c][i])
                 for c in extra:
                     out[c].append(None if j is None else right.cols[c][j])
         return DataFrame(out)
+
+
+def _all_plain(rows):
+    """every key value is a concrete, hashable Python value whose == is the model's equality (no symbolic value, no NaN)"""
+    for r in rows:
+        for v in r:
+            t = type(v)
+            if t is str or t is int or t is bool:
+                continue
+            if t is float and v == v:
+                continue
+            return False
+    return True
 
 
 def make_pandas():
